@@ -387,9 +387,10 @@ ssize_t __wrap_read(int fd, void *buf, size_t n)
 }
 static const int LENS[] = { 0, 1, 2, 4095, 4096, 4097, 8191, 8192, 8193, 10000, 12300 };
 #define NLENS ((int) (sizeof LENS / sizeof *LENS))
-enum { SRC_FP_MEM, SRC_FP_FILE, SRC_FP_FILE_MID, SRC_FP_PIPE, SRC_FD_PIPE, SRC_FD_SOCK, SRC_FD_FILE, SRC_FD_FILE_MID, NSRC };
+enum { SRC_FP_MEM, SRC_FP_FILE, SRC_FP_FILE_MID, SRC_FP_PIPE, SRC_FD_PIPE, SRC_FD_SOCK, SRC_FD_FILE, SRC_FD_FILE_MID, SRC_FP_PIPE_MID, NSRC };
 static const char *SRCN[NSRC] = { "new_from_fp(fmemopen)", "new_from_fp(regular file)", "new_from_fp(regular file, first half skipped by fseek / consumed by fread)", "new_from_fp(pipe)",
-                                  "new_from_fd(pipe)", "new_from_fd(unix socket)", "new_from_fd(regular file)", "new_from_fd(regular file, offset len/2)" };
+                                  "new_from_fd(pipe)", "new_from_fd(unix socket)", "new_from_fd(regular file)", "new_from_fd(regular file, offset len/2)",
+                                  "new_from_fp(pipe whose first byte was read with fgetc: stdio holds what it read ahead)" };
 typedef struct { int src, len; } sc_t;
 static void sc_decode(uint64_t idx, sc_t *c) { c->src = (int) (idx % NSRC); c->len = LENS[(idx / NSRC) % NLENS]; }
 static void sc_desc(uint64_t idx, void *ctx, char *b, size_t n)
@@ -412,7 +413,7 @@ static void sc_run(void *ctx)
 {
     sc_t *c = &g_sc; int fds[2] = { -1, -1 }; FILE *fp = NULL; T o = NULL;
     (void) ctx;
-    int is_fp = c->src <= SRC_FP_PIPE, off = 0;
+    int is_fp = c->src <= SRC_FP_PIPE || c->src == SRC_FP_PIPE_MID, off = 0;
     const char *site = is_fp ? CLS "_new_from_fp" : CLS "_new_from_fd";
     const char *shape = c->len == 0 ? "empty input" : (c->len < 4096 ? "below one chunk" : (c->len == 4096 ? "exactly one chunk" : "more than one chunk"));
     switch (c->src) {
@@ -424,12 +425,13 @@ static void sc_run(void *ctx)
             if (c->len % 2) { char *skip = malloc((size_t) off + 1); if (off && fread(skip, 1, (size_t) off, fp) != (size_t) off) { free(skip); fclose(fp); return; } free(skip); }
             else fseek(fp, off, SEEK_SET); }
         break;
-    case SRC_FP_PIPE: case SRC_FD_PIPE:
+    case SRC_FP_PIPE: case SRC_FD_PIPE: case SRC_FP_PIPE_MID:
         if (pipe(fds)) return;
         fcntl(fds[1], F_SETPIPE_SZ, 1 << 16);
         if (write(fds[1], g_payload, (size_t) c->len) != c->len) { close(fds[0]); close(fds[1]); return; }
         close(fds[1]); fds[1] = -1;
         if (c->src == SRC_FP_PIPE) fp = fdopen(fds[0], "r");
+        if (c->src == SRC_FP_PIPE_MID) { fp = fdopen(fds[0], "r"); if (c->len && fp) { int ch = fgetc(fp); if (ch != g_payload[0]) { fclose(fp); return; } off = 1; } }
         break;
     case SRC_FD_SOCK:
         if (socketpair(AF_UNIX, SOCK_STREAM, 0, fds)) return;
@@ -443,7 +445,7 @@ static void sc_run(void *ctx)
         break;
     }
     int explen = c->len - off;
-    if (off) shape = "seekable input read from the middle";
+    if (off) shape = c->src == SRC_FP_PIPE_MID ? "stream input partly consumed through stdio" : "seekable input read from the middle";
     mc_set_shape(shape);
     if (is_fp) { if (!fp) return; o = F(new_from_fp)(fp); }
     else { g_hook_fd = fds[0]; o = F(new_from_fd)(fds[0]); g_hook_fd = -1; }
@@ -476,7 +478,7 @@ static void sc_case(uint64_t idx, void *ctx)
     g_payload = malloc((size_t) g_sc.len + 1);
     for (int i = 0; i < g_sc.len; i++) g_payload[i] = (unsigned char) ((i * 7 + i / 256) & 0xff);   /* contains NUL and 0xFF */
     mc_e3_stats st;
-    int is_fd = g_sc.src >= SRC_FD_PIPE;
+    int is_fd = g_sc.src >= SRC_FD_PIPE && g_sc.src != SRC_FP_PIPE_MID;
     mc_e3_explore(sc_run, NULL, is_fd ? g_k : 0, is_fd ? g_dev : 0, &st);
     mc_stat_add("e3_executions", (long) st.executions);
     if (g_sc.len > 4095) mc_nontrivial();
